@@ -3,13 +3,17 @@
 # /verif/seeded/<ID>-<k>/ and run the listed checks (quick tier, scratch copy) against each; results are appended to seeded/LEDGER.txt
 id="$1"; shift
 cd /verif
-git -C /repo worktree remove --force /tmp/seed-$id 2>/dev/null
-for k in 1 2; do
-  [ -f /tmp/seed-$id-out/patch$k.diff ] || continue
-  line=$(./tools/verify_seed.sh $id $k | head -1)
+pre="${SEED_PREFIX:-seed}"; off="${SEED_OFFSET:-0}"   # round 2: SEED_PREFIX=seedB SEED_OFFSET=2
+src="/tmp/$pre-$id-out"
+git -C /repo worktree remove --force /tmp/$pre-$id 2>/dev/null
+for j in 1 2; do
+  k=$((j+off))
+  [ -f $src/patch$j.diff ] || continue
+  if [ "$off" != 0 ]; then for f in patch demo meta; do for e in diff _test.go json; do [ -f $src/$f$j$e ] && cp $src/$f$j$e $src/$f$k$e; [ -f $src/$f$j.$e ] && cp $src/$f$j.$e $src/$f$k.$e; done; done; fi
+  line=$(./tools/verify_seed.sh $id $k $src | head -1)
   echo "$line" >> seeded/LEDGER.txt
   case "$line" in *"clean_demo=ok suite=ok patched_demo=fails"*) ;; *) echo "  -> NOT KEPT (verification failed)" >> seeded/LEDGER.txt; continue;; esac
-  ./tools/import_seed.sh $id $k "clean_demo=ok suite=ok patched_demo=fails" >/dev/null
+  SEED_SRC=$src ./tools/import_seed.sh $id $k "clean_demo=ok suite=ok patched_demo=fails" >/dev/null
   for chk in "$@"; do
     out=$(VERIF_SHARDS=${VERIF_SHARDS:-4} ./tools/mutant.sh seeded/$id-$k/patch.diff $chk quick 2>&1)
     rc=$(echo "$out" | sed -n 's/^mutant: check exit=\([0-9]*\).*/\1/p')
